@@ -10,6 +10,8 @@ func TestVerifReplay(t *testing.T) {
 	verifsym.RunReplay(t, map[string]any{
 		"Verif_C09_Template":     Verif_C09_Template,
 		"Verif_C09_TemplateUTF8": Verif_C09_TemplateUTF8,
+		"Verif_C09_TemplateLong": Verif_C09_TemplateLong,
+		"Verif_C09_SprintfLong":  Verif_C09_SprintfLong,
 		"Verif_C09_Sprintf":      Verif_C09_Sprintf,
 		"Verif_C09_Comment":      Verif_C09_Comment,
 		"Verif_C09_GoDirective":  Verif_C09_GoDirective,
